@@ -85,13 +85,200 @@ def affine(e, depth=0):
     return ({show(e): 1}, 0)
 
 
+# ===================================================================================================== R-SAUCE-FLAGS
+def sauce_flags(chk, f, wb, rb):
+    """The two flag fields the record's TFlags byte carries back (`use_letter_spacing`, `use_aspect_ratio`) are decoded by the
+    reader as `(flags & MASK) == VALUE`.  The writer's flags byte is evaluated path by path (constant propagation over the
+    acyclic part of write_sauce_info, forking at the tests of the two fields): on every path on which a field was tested true the
+    byte, masked, equals the reader's VALUE, and on every path on which it was tested false it does not."""
+    reb, web = ExprBuilder(rb), ExprBuilder(wb)
+    adt = f.adts.get("sauce_mod::SauceData")
+    names = [x[0] for x in adt["variants"][0]["fields"]] if adt else []
+    # reader: bool local -> field; (mask, value) under which it is set true
+    feeds = {}
+    for bi, k, st in rb.stmts():
+        if st["k"] == "assign" and st["rv"]["k"] == "agg" and (st["rv"].get("adt") or "").endswith("sauce_mod::SauceData"):
+            for nm, o in zip(names, st["rv"]["ops"]):
+                pj = o.get("copy") or o.get("move")
+                if pj is not None and not pj.get("p") and nm in ("use_letter_spacing", "use_aspect_ratio"):
+                    l = pj["l"]
+                    for _ in range(4):          # through plain copies into temporaries
+                        ds = rb.defs.get(l, [])
+                        if len(ds) == 1 and ds[0][1] != "term":
+                            r2 = rb.blocks[ds[0][0]]["stmts"][ds[0][1]]["rv"]
+                            q = (r2["a"].get("copy") or r2["a"].get("move")) if r2["k"] == "use" else None
+                            if q is not None and not q.get("p"):
+                                l = q["l"]
+                                continue
+                        break
+                    feeds[l] = nm
+    decode = {}
+    bad = []
+    for bi in range(rb.nblocks):
+        t = rb.blocks[bi]["term"]
+        if t["k"] != "switch":
+            continue
+        d = reb.operand(t["discr"])
+        if not (d[0] == "bin" and d[1] == "BitAnd" and ("const" in (d[2][0], d[3][0]))):
+            continue
+        mask = d[2][1] if d[2][0] == "const" else d[3][1]
+        for val, tgt in t["targets"]:
+            for s2 in rb.blocks[tgt]["stmts"]:
+                if s2["k"] == "assign" and not s2["p"].get("p") and s2["p"]["l"] in feeds and s2["rv"]["k"] == "use" and "const" in s2["rv"]["a"]:
+                    fld = feeds[s2["p"]["l"]]
+                    if s2["rv"]["a"]["const"].get("val") == 1:
+                        prev = decode.get(fld)
+                        if prev is not None and prev != (mask, val):
+                            bad.append("%s is decoded from two different patterns %s / %s" % (fld, prev, (mask, val)))
+                        decode[fld] = (mask, val)
+    if not chk.anchor(set(decode) == {"use_letter_spacing", "use_aspect_ratio"} and not bad, "R-SAUCE-FLAGS",
+                      "reader: both flag fields are set true under one `(flags & MASK) == VALUE` each (found %s%s)" % (decode, "; " + "; ".join(bad) if bad else "")):
+        return
+    # writer: the byte local whose definitions are controlled by the tests of these fields
+    tests = {}
+    for bi in range(wb.nblocks):
+        t = wb.blocks[bi]["term"]
+        if t["k"] == "switch":
+            d = web.operand(t["discr"])
+            x = d
+            while x[0] in ("ref", "deref", "cast"):
+                x = x[2] if x[0] == "cast" else x[1]
+            if x[0] == "field" and x[2] in decode and len(t["targets"]) == 1 and t["targets"][0][0] == 0:
+                tests[bi] = (x[2], t["targets"][0][1], t.get("otherwise"))         # field, successor when false, when true
+    if not chk.anchor(len({v[0] for v in tests.values()}) == 2, "R-SAUCE-FLAGS", "writer: tests of use_letter_spacing and use_aspect_ratio found"):
+        return
+    cands = set()
+    for l in range(wb.argc + 1, len(wb.locals)):
+        if wb.tys(l) != "u8":
+            continue
+        for bi, k in wb.defs.get(l, []):
+            if any(tb in wb.control_deps(bi) for tb in tests):
+                cands.add(l)
+    # ... and the bytes computed from those (`flags |= match (a, b) { .. }`)
+    grew = True
+    while grew:
+        grew = False
+        for l in range(wb.argc + 1, len(wb.locals)):
+            if wb.tys(l) != "u8" or l in cands:
+                continue
+            for bi, k in wb.defs.get(l, []):
+                if k == "term":
+                    continue
+                rv = wb.blocks[bi]["stmts"][k]["rv"]
+                for key in ("a", "b"):
+                    o = rv.get(key)
+                    pj = (o.get("copy") or o.get("move")) if isinstance(o, dict) else None
+                    if pj is not None and not pj.get("p") and pj["l"] in cands:
+                        cands.add(l)
+                        grew = True
+    if not chk.anchor(len(cands) >= 1, "R-SAUCE-FLAGS", "writer: a byte whose value depends on the two flag fields"):
+        return
+    # which of them is pushed into the record
+    pushed = []
+    for bi, t in wb.calls():
+        if (t["callee"].get("resolved") or "").endswith("Vec::<T, A>::push") and len(t["args"]) == 2:
+            e = web.operand(t["args"][1])
+            if e[0] == "var" and e[1] in cands:
+                pushed.append((bi, e[1]))
+    if not chk.anchor(len(pushed) == 1, "R-SAUCE-FLAGS", "writer: the flags byte is pushed once (found %d)" % len(pushed)):
+        return
+    push_bi, TF = pushed[0]
+    back = set(wb.back_edges)
+    UNK = "?"
+
+    def ev(op, env):
+        if "const" in op:
+            return op["const"].get("val", UNK)
+        pj = op.get("copy") or op.get("move")
+        if pj is None or pj.get("p"):
+            return UNK
+        return env.get(pj["l"], UNK)
+    tracked = set(cands)
+    # locals the byte is computed from (match results OR-ed in)
+    grew = True
+    while grew:
+        grew = False
+        for l in list(tracked):
+            for bi, k in wb.defs.get(l, []):
+                if k == "term":
+                    continue
+                rv = wb.blocks[bi]["stmts"][k]["rv"]
+                for key in ("a", "b"):
+                    o = rv.get(key)
+                    pj = (o.get("copy") or o.get("move")) if isinstance(o, dict) else None
+                    if pj is not None and not pj.get("p") and wb.tys(pj["l"]) == "u8" and pj["l"] not in tracked and pj["l"] > wb.argc:
+                        tracked.add(pj["l"])
+                        grew = True
+    # forward propagation of (literals, values of the tracked locals) over the acyclic graph
+    states = {0: {(frozenset(), frozenset())}}
+    order = wb.rpo
+    at_push = set()
+    npaths = 0
+    for bi in order:
+        cur = states.get(bi)
+        if not cur:
+            continue
+        outs = set()
+        for lits, envf in cur:
+            env = dict(envf)
+            for st in wb.blocks[bi]["stmts"]:
+                if st["k"] != "assign" or st["p"].get("p") or st["p"]["l"] not in tracked:
+                    continue
+                rv = st["rv"]
+                v = UNK
+                if rv["k"] == "use":
+                    v = ev(rv["a"], env)
+                elif rv["k"] == "bin" and rv["op"] in ("BitOr", "BitAnd", "BitXor", "Add", "AddO"):
+                    a_, b_ = ev(rv["a"], env), ev(rv["b"], env)
+                    if a_ != UNK and b_ != UNK:
+                        v = {"BitOr": a_ | b_, "BitAnd": a_ & b_, "BitXor": a_ ^ b_}.get(rv["op"], (a_ + b_) & 0xFF)
+                env[st["p"]["l"]] = v
+            if bi == push_bi:
+                at_push.add((lits, env.get(TF, UNK)))
+            outs.add((lits, frozenset(env.items())))
+        for sx in wb.succ[bi]:
+            if (bi, sx) in back:
+                continue
+            for lits, envf in outs:
+                l2 = lits
+                if bi in tests:
+                    fld, s_false, s_true = tests[bi]
+                    if sx == s_false and sx != s_true:
+                        l2 = lits | {(fld, False)}
+                    elif sx == s_true and sx != s_false:
+                        l2 = lits | {(fld, True)}
+                    if (fld, True) in l2 and (fld, False) in l2:
+                        continue
+                tgt = states.setdefault(sx, set())
+                if len(tgt) < 4096:
+                    tgt.add((l2, envf))
+    chk.floor("R-SAUCE-FLAGS", "writer paths reaching the flags byte", len(at_push), 4)
+    nchecked = 0
+    for lits, val in sorted(at_push, key=str):
+        for fld, truth in sorted(lits):
+            mask, want = decode[fld]
+            nchecked += 1
+            if val == UNK:
+                ok = False
+                why = "its value is not a constant the analysis can follow"
+            else:
+                ok = ((val & mask) == want) == truth
+                why = "the byte is %#04x: masked with %#04x it is %#04x, the reader sets the field exactly for %#04x" % (val, mask, val & mask, want)
+            chk.obligation(ok)
+            if not ok:
+                chk.finding("write_sauce_info|tflags|%s=%s" % (fld, truth), rule="R-SAUCE-FLAGS", where="%s:%s" % (wb.file, wb.line), fn="write_sauce_info",
+                            what="on the path on which %s is %s (%s) %s: the flag does not come back as it was written" % (
+                                fld, str(truth).lower(), ", ".join("%s=%s" % (a, str(b).lower()) for a, b in sorted(lits)), why))
+    chk.floor("R-SAUCE-FLAGS", "flag literals checked against the reader's decode", nchecked, 4)
+
+
 def run(chk):
     global _FACTS
     f = F.load()
     _FACTS = f
     g = CallGraph(f)
     ip = Interproc(f, g)
-    chk.rules = ["R-SAUCE-AFFINE", "R-SAUCE-CUT", "R-SAUCE-EXACT", "R-SAUCESTR-LEN", "R-SAUCE-WIDTH"]
+    chk.rules = ["R-SAUCE-AFFINE", "R-SAUCE-CUT", "R-SAUCE-EXACT", "R-SAUCESTR-LEN", "R-SAUCE-WIDTH", "R-SAUCE-FLAGS"]
     chk.assumptions = ["SauceString<N, _>::append_to appends exactly N bytes provided its contents are at most N bytes (that proviso is rule R-SAUCESTR-LEN)",
                        "lengths < 2^31; 64-bit offset arithmetic does not wrap"]
     wb, rb, lb = f.bodies.get(WRITER), f.bodies.get(READER), f.bodies.get(LOADER)
@@ -619,6 +806,7 @@ def run(chk):
     chk.floor("R-SAUCE-EXACT", "narrow arithmetic operations in extract", nar, 4)
     nss = saucestr_len(chk, f, ip)
     sauce_width(chk, f, ip)
+    sauce_flags(chk, f, wb, rb)
     return chk.finish("Writer: %d append sites, path sums %s, %s bytes per comment line; reader: header length %s; content length definitions and "
                       "%d narrow arithmetic operations of the header decoder checked; %d SauceString construction / mutation obligations (content <= field width)." % (nappend, sorted(final_norm), per_iter, sorted(got)[:2], nar, nss))
 
